@@ -22,6 +22,7 @@ from ..cfg import Node, CFG
 from ..facts import (path_of, canon, holds, atoms_of_test, parse_atom,
                      key_paths)
 from .. import dataflow
+from ..resolve import Ctx
 from . import common
 
 SERVER = 'slimta.smtp.server.Server'
@@ -215,6 +216,19 @@ def run(e: Engine, rep: Report):
     r75(e, rep)
     r75_edge(e, rep)
     r77(e, rep)
+    rep.rule('R7.8', 'session flags that are tested by truthiness are set '
+             'to a constant, a boolean expression or a value established '
+             'non-empty on the path')
+    r78(e, rep)
+    from . import c09, c08
+    rep.rule('R7.9', '= C09-G7: no way out of Server.handle with replies '
+             'still in the send buffer (the 221/421 that ends the session '
+             'reaches the client)')
+    c09.g7(e, rep, 'R7.9')
+    rep.rule('R7.10', '= C08-R8.8: the offered extension set is extended '
+             'by the constructor only (a withdrawn STARTTLS cannot come '
+             'back, its callback cannot run twice)')
+    c08.r88(e, rep, 'R7.10')
     rep.floor('R7.1', 10, 'callback sites')
     rep.floor('R7.3', 12, 'command handlers')
     rep.floor('R7.4', 10, 'mutable reply sends')
@@ -874,3 +888,76 @@ def r77(e: Engine, rep: Report):
                       '500 unknown command is sent although the line '
                       'parsed', reason='dominated by falsy(command)',
                       loc=m.loc())
+
+
+# ------------------------------------------------------------------ R7.8
+def r78(e: Engine, rep: Report):
+    """The session flags are tested by truthiness (`if not
+    self.have_mailfrom`), so what is stored on success must be truthy by
+    construction: a constant True, a boolean expression, or a value the
+    path has established as non-empty.  A value taken from the peer (an
+    address - empty for the null sender `MAIL FROM:<>`) makes an accepted
+    command count as not given: RCPT is refused after an accepted MAIL, a
+    second MAIL runs the callback again."""
+    c = e.p.cls(SERVER)
+    nsites = 0
+    for mname, m in sorted(c.methods.items()):
+        if mname == '__init__':
+            continue
+        if not any(isinstance(x, ast.Attribute) and x.attr in FLAGS and
+                   isinstance(x.ctx, ast.Store) for x in ast.walk(m.node)):
+            continue
+        ctx = Ctx(m, SERVER)
+        g = e.build(ctx, raises=lambda b, n, r: set())
+        fx = e.facts(g)
+        for n in g.of_kind('stmt'):
+            a = n.ast
+            if not isinstance(a, ast.Assign):
+                continue
+            for t in a.targets:
+                if not (isinstance(t, ast.Attribute) and t.attr in FLAGS and
+                        isinstance(t.value, ast.Name) and
+                        t.value.id == 'self'):
+                    continue
+                v = a.value
+                if isinstance(v, ast.Constant):
+                    continue            # True / False / None
+
+                def boolean(x):
+                    if isinstance(x, ast.Constant):
+                        return isinstance(x.value, bool) or x.value is None
+                    if isinstance(x, ast.Compare):
+                        return True
+                    if isinstance(x, ast.UnaryOp) and \
+                            isinstance(x.op, ast.Not):
+                        return True
+                    if isinstance(x, ast.BoolOp):
+                        return all(boolean(y) or (
+                            isinstance(y, ast.Attribute) and
+                            y.attr == t.attr) for y in x.values)
+                    if isinstance(x, ast.Call) and \
+                            isinstance(x.func, ast.Name) and \
+                            x.func.id == 'bool':
+                        return True
+                    return False
+                nsites += 1
+                rep.evaluations += 1
+                st = fx.at(n) or frozenset()
+                try:
+                    truthy = holds(st, (True, canon(v, n.frame)))
+                except Exception:
+                    truthy = False
+                rep.check(boolean(v) or truthy, 'R7.8', m.qname,
+                          'flag self.%s is set to a value that is truthy '
+                          'whenever the command was accepted' % t.attr,
+                          'self.%s is tested by truthiness but set to `%s`, '
+                          'which can be falsy (an empty string - the null '
+                          'reverse-path of MAIL FROM:<>): the accepted '
+                          'command counts as not given, later commands are '
+                          'refused with 503 or its callback runs twice'
+                          % (t.attr, ast.unparse(v)), loc=n.loc(),
+                          reason='boolean expression' if boolean(v)
+                          else 'non-empty on every path to here')
+    if nsites < 3:
+        rep.error('anchor vanished: non-constant flag assignments in Server '
+                  '(%d < 3)' % nsites)
